@@ -357,8 +357,9 @@ class Circuit(object):
             if you included IfUnused.
         """
 
-        # we're already closed; nothing to do
-        if self.state == 'CLOSED':
+        # we're already closed; nothing to do (Tor reports a circuit
+        # that goes away before it was BUILT as FAILED, not CLOSED)
+        if self.state in ('CLOSED', 'FAILED'):
             return defer.succeed(None)
 
         # someone already called close() but we're not closed yet
